@@ -22,11 +22,13 @@ ASSUME = [
     "clang's x86-64 code generation stands in for the BPF back end; the in-kernel verifier is not exercised",
     "kernel map semantics and bpf_ktime_get_ns are modelled as a byte table and a scripted monotonic clock (cshim)",
     "one CPU: concurrent updates of one bucket from several CPUs (the C code takes no lock) are not modelled",
-    "frames are untagged Ethernet II; skb->len is an input (non-linear skbs: len may exceed the linear part)",
+    "policy_enforced is stated for untagged Ethernet II / IPv4 frames; IPv6 and encapsulated IPv4 are finding "
+    "KF-qos-unclassified (the generator sends them against installed policies); skb->len is an input",
+    "Backlogged forces offered packets <= burst; packets larger than the burst are finding KF-qos-burst-lt-pkt",
     "control plane driven: PolicyManager.AddPolicy (incl. redefinition) / RemovePolicy, Manager.SetSubscriberPolicy, "
     "SetSubscriberQoS, RemoveSubscriberQoS, GetSubscriberCount in arbitrary orders; LoadDefaultPolicies (a static table) is not",
-    "the upload direction has no configurable burst in the manager's API: its expected burst is the default rule "
-    "(1 s of traffic, min 64KB, cap 10MB); the download burst is the policy's, or that rule when 0",
+    "expected burst in both directions: the policy's, or the default rule (1 s of that direction's traffic, min 64KB, "
+    "cap 10MB) when it is 0",
     "backlogged = every gap earns at most the previously offered packet and cannot overflow the bucket "
     "(Bng.TokenBucket.Backlogged, decidable from the arrival sequence)",
 ]
